@@ -187,4 +187,55 @@ theorem checkedPow_eq (bits a e : ℕ) (hb : 0 < bits) (ha : a < 2 ^ bits) :
   · have h' : 2 ^ bits ≤ a ^ e := by omega
     simp [h, h']
 
+/-! ### `approx_pow2` on integer exponents -/
+
+theorem pow_lt_pow_iff_two (a b : ℕ) : 2 ^ a < 2 ^ b ↔ a < b :=
+  Nat.pow_lt_pow_iff_right (by omega)
+
+/-- `approx_pow2` on a positive integer exponent `n`: exactly `2^n`, `None` iff it does not fit. -/
+theorem approxPow2Post_pow (bits n : ℕ) (hn : 1 ≤ n) :
+    approxPow2Post bits (2 ^ 63) n = if n < bits then some (2 ^ n) else none := by
+  unfold approxPow2Post
+  by_cases h63 : n ≥ 63
+  · rw [if_pos h63]
+    have hv : 2 ^ 63 * 2 ^ (n - 63) = 2 ^ n := by rw [← pow_add]; congr 1; omega
+    simp only [hv, pow_lt_pow_iff_two]
+    by_cases h : n < bits
+    · simp [h, show 63 < bits by omega]
+    · simp [h]
+  · rw [if_neg h63]
+    have h1 : 2 ^ 63 / 2 ^ (63 - n) = 2 ^ n := by
+      rw [Nat.pow_div (by omega) (by omega)]; congr 1; omega
+    have h2 : 2 ^ 63 / 2 ^ (63 - n - 1) = 2 ^ (n + 1) := by
+      rw [Nat.pow_div (by omega) (by omega)]; congr 1; omega
+    have h3 : 2 ^ (n + 1) % 2 = 0 := by rw [pow_succ]; omega
+    simp only [h1, h2, h3, Nat.add_zero, pow_lt_pow_iff_two]
+
+theorem approxPow2Int_eq (bits : ℕ) (n : ℤ) :
+    approxPow2Int bits n =
+      if n ≤ -2 then some 0
+      else if n ≤ 0 then (if bits = 0 then none else some 1)
+      else if n < (bits : ℤ) then some (2 ^ n.toNat) else none := by
+  unfold approxPow2Int
+  by_cases h0 : n ≤ 0
+  · rw [if_pos h0]
+    by_cases h2 : n ≤ -2
+    · rw [if_pos (by omega), if_pos h2]
+    · rw [if_neg (by omega), if_neg h2, if_pos h0]
+      by_cases hb : bits = 0
+      · subst hb; simp
+      · have : 1 < 2 ^ bits := Nat.one_lt_two_pow hb
+        rw [if_pos this, if_neg hb]
+  · rw [if_neg h0]
+    have hn2 : ¬ n ≤ -2 := by omega
+    rw [if_neg hn2, if_neg h0]
+    by_cases hgt : n > (bits : ℤ)
+    · rw [if_pos hgt, if_neg (by omega)]
+    · rw [if_neg hgt]
+      obtain ⟨k, hk⟩ : ∃ k : ℕ, n = k := ⟨n.toNat, by omega⟩
+      subst hk
+      simp only [Int.toNat_natCast]
+      rw [approxPow2Post_pow bits k (by omega)]
+      simp only [Nat.cast_lt]
+
 end Ruint.Pow
